@@ -31,11 +31,11 @@ def fns(ctx):
 
 
 def run(ctx):
-    nullable(ctx)
-    pairing(ctx)
-    ownership(ctx)
-    common.rcu_writer_guard(ctx, "C13.erase-once")
-    uaf(ctx, "C13.uaf", fns(ctx), floor=20)
+    ctx.step(nullable, ctx)
+    ctx.step(pairing, ctx)
+    ctx.step(ownership, ctx)
+    ctx.step(common.rcu_writer_guard, ctx, "C13.erase-once")
+    ctx.step(uaf, ctx, "C13.uaf", fns(ctx), floor=20)
 
 
 def nullable(ctx):
